@@ -29,6 +29,9 @@ type c05Section struct {
 type c05Reservation struct {
 	Size   uint64   `json:"size"`
 	Frames []uint64 `json:"frames"` // one per page
+	// Refused: a request for more than is left (Size is huge, no frames); the
+	// caller gets an error and carries on, as early boot code does
+	Refused bool `json:"refused,omitempty"`
 }
 
 type c05Case struct {
@@ -52,6 +55,16 @@ func c05Run(c c05Case) *vlib.Failure {
 	for i, r := range c.Reservations {
 		var addr uintptr
 		var err *kernel.Error
+		if r.Refused {
+			if r.Size <= uint64(earlyReserveLastUsed) {
+				return vlib.Failf("VERIF-HARNESS: refused reservation %d of %#x bytes would fit", i, r.Size)
+			}
+			pc := vlib.Catch(func() { addr, err = EarlyReserveRegion(uintptr(r.Size)) })
+			if pc.Panicked || err == nil {
+				return vlib.Failf("set-up: early reservation %d of %#x bytes, more than is left, was not refused: address %#x %v", i, r.Size, uint64(addr), pc)
+			}
+			continue
+		}
 		pc := vlib.Catch(func() {
 			addr, err = EarlyReserveRegion(uintptr(r.Size))
 			if err != nil {
@@ -249,6 +262,10 @@ func c05Gen(t *rapid.T) c05Case {
 			r.Frames = append(r.Frames, rapid.Uint64Range(1, 1<<36).Draw(t, "rframe"))
 		}
 		c.Reservations = append(c.Reservations, r)
+		if rapid.IntRange(0, 7).Draw(t, "refused") == 0 {
+			c.Reservations = append(c.Reservations, c05Reservation{Refused: true,
+				Size: rapid.SampledFrom([]uint64{1<<64 - 8192, 1<<64 - 1<<30, 1<<64 - 1<<38, 1<<64 - 4096, 1<<64 - 1}).Draw(t, "refusedsize")})
+		}
 	}
 	// through the real multiboot decoder when the string table (host memory, low half) is
 	// certain to lie below the kernel range and therefore to be skipped
